@@ -56,6 +56,11 @@ CHECKS = {
          "For 18 protocol variants, grammar-generated command sequences are delivered on a fresh connection per delivery through server.Run; the events attributed to the connection (by unique source address) must list each command exactly once, in order, with its decoded key fields, for every segmentation.",
          "Key fields compared per protocol (command line, method+url, message-id+request-type, dns id, ...); payload previews are not compared. Missing events are declared only after a 2 s wait.",
          "DESIGN.md §5 C04"),
+ "C03": ("exploration",
+         "runtime monitoring: transcript and event recorder per scripted session behind the real dispatcher; offline oracle = solo-equivalence (each session's canonical transcript and attributed events equal its solo run on a fresh service instance) + token/address attribution + session-id partition, over step-level interleavings, true concurrency and sequential histories; race detector as diagnostic",
+         "For ldap, ftp, smtp, telnet, redis, memcached, http and tftp, scripted sessions stamped with unique tokens and distinct client addresses are interleaved at request/response granularity (exhaustive up to the bound in thorough, sampled in quick), run on parallel goroutines, and run after histories of complete/aborted earlier sessions, all against one shared service instance as in production.",
+         "Only timestamps, session ids, token-derived digests and map-ordered LDAP attribute lists are masked. The reference is the session's own solo run, so any deterministic behaviour of the service is accepted.",
+         "DESIGN.md §5 C03"),
 }
 
 NOT_YET = {
